@@ -1,4 +1,5 @@
 import SdbModel.Model.Enc
+import SdbModel.Model.KeySet
 import SdbModel.Generated.EncParams
 import Driver.Util
 /-! driver suite `enc` (C18): one op line in, one obs line out -/
@@ -35,6 +36,22 @@ def step (ws : List String) : String :=
     match parseInt a, parseInt b with
     | some a, some b =>
       s!"{showKey (encPlatformInt Gen.intParams a)} {decide (encPlatformInt Gen.intParams a = encPlatformInt Gen.intParams b)}"
+    | _, _ => "bad-op"
+  | "ks" :: ctor :: probe :: rest =>
+    -- KeySet constructors: one key per element in order; a set / a map: each distinct element once, sorted
+    let elems : Option (List (List Nat)) := match rest with
+      | [] => some []
+      | [l] => if l == "" then some [] else (l.splitOn ",").mapM parseKey
+      | _ => none
+    match elems, parseKey probe with
+    | some es, some pk =>
+      let unordered := ctor == "set" || ctor == "stringmap"
+      let es := if unordered then
+          let d := es.foldl (fun acc k => if acc.contains k then acc else acc ++ [k]) []
+          (d.toArray.qsort (fun a b => cmpL a b == .lt)).toList
+        else es
+      let ks := KS.ofElems id es
+      s!"{",".intercalate (ks.toList.map showKey)} {ks.exists pk}"
     | _, _ => "bad-op"
   | ["bool"] => s!"{showKey (encBool false)} {showKey (encBool true)}"
   | ["lpm", d, l] =>
